@@ -98,6 +98,25 @@ def run(ctx):
     ctx.extra["worst_residual"] = worst
     # lambda of a sample is this function of (dod, coordinate 2E-2)
     ss = S.generate(ctx, 8 if ctx.quick else 40, 3, max_e=5, max_loops=2, routings_per_graph=1, kinds=("uniform", "corner", "edge1"))
+    # graphs whose degree of divergence is exactly 1 (within 1e-8 of 1: the near-one branch), 1/2 and 2
+    from .. import graphs as G, oracle as O
+    special = []
+    for edges, w, massive, ext, D in (([(0, 1), (1, 2), (2, 0)], [1.0, 1.0, 1.0], [False] * 3, [0, 1, 2], 4),
+                                      ([(0, 1), (0, 1)], [1.0, 1.0], [True, True], [0, 1], 2),
+                                      ([(0, 1), (0, 1)], [1.25, 1.25], [True, True], [0, 1], 3),
+                                      ([(0, 1), (1, 2), (2, 0)], [1.0 + 1e-9 / 3] * 3, [False] * 3, [0, 1, 2], 4),
+                                      ([(0, 1), (0, 1)], [1.5, 1.5], [True, False], [0, 1], 2)):
+        dod, Lf, table = O.table_oracle(edges, w, massive, ext, D)
+        special.append(dict(edges=edges, weights=w, massive=massive, ext=ext, D=D, table=table, dod=dod, loops=Lf, accepted=True, name="special_dod"))
+    built = S.build_tables(special)
+    for c, b in zip(special, built):
+        if b.get("status") != "ok":
+            continue
+        routing = S.make_routing(ctx.rng, c, "fundamental")
+        for kind in ("uniform", "uniform", "corner", "edge1"):
+            xs = S.point(ctx.rng, b["numVars"], kind)
+            ss.append(dict(case=c, routing=routing, table=b["table"], built=b, xs=xs, kind=kind, group=None,
+                           req=S.sample_request(c, routing, b["table"], xs)))
     S.run(ss)
     greqs = []
     for s in ss:
